@@ -103,10 +103,10 @@ theorem rangeLen_rat (a b step : Rat) (hs : step ≠ 0) (hc : countBefore a b st
   · rw [if_pos hdir]
     have hq : (b - a) / step * step = b - a := div_mul_cancel₀ _ hs
     have hle : (b - a) / step ≤ (((b - a) / step).ceil : Rat) := Rat.le_ceil
-    have hneg : ¬ ((0 < step ∧ ratOps.ceil (ratOps.div (b - a) step) * step < b - a) ∨
-        (step < 0 ∧ b - a < ratOps.ceil (ratOps.div (b - a) step) * step)) := by
-      show ¬ ((0 < step ∧ (((b - a) / step).ceil : Rat) * step < b - a) ∨
-        (step < 0 ∧ b - a < (((b - a) / step).ceil : Rat) * step))
+    have hneg : ¬ ((0 < step ∧ a + ratOps.ceil (ratOps.div (b - a) step) * step < b) ∨
+        (step < 0 ∧ b < a + ratOps.ceil (ratOps.div (b - a) step) * step)) := by
+      show ¬ ((0 < step ∧ a + (((b - a) / step).ceil : Rat) * step < b) ∨
+        (step < 0 ∧ b < a + (((b - a) / step).ceil : Rat) * step))
       rintro (⟨hp, hlt⟩ | ⟨hn, hlt⟩)
       · have := mul_le_mul_of_nonneg_right hle hp.le
         linarith
@@ -247,6 +247,30 @@ theorem rangeLen_int (a b step : Int) (hs : step ≠ 0)
         rintro (⟨_, h⟩ | ⟨h, _⟩) <;> omega
       · have := (intSteps_neg (b - a) step hn hs).1
         rintro (⟨h, _⟩ | ⟨_, h⟩) <;> omega
+    have hcond : ((0 < step ∧ a + (b - a).tdiv step * step < b) ∨ (step < 0 ∧ b < a + (b - a).tdiv step * step)) ↔
+        ((0 < step ∧ (b - a).tdiv step * step < b - a) ∨ (step < 0 ∧ b - a < (b - a).tdiv step * step)) := by
+      constructor
+      · rintro (⟨h1, h2⟩ | ⟨h1, h2⟩)
+        · left; exact ⟨h1, by omega⟩
+        · right; exact ⟨h1, by omega⟩
+      · rintro (⟨h1, h2⟩ | ⟨h1, h2⟩)
+        · left; exact ⟨h1, by omega⟩
+        · right; exact ⟨h1, by omega⟩
+    have hsteps : (if (0 < step ∧ a + (b - a).tdiv step * step < b) ∨ (step < 0 ∧ b < a + (b - a).tdiv step * step)
+        then (b - a).tdiv step + 1 else (b - a).tdiv step) = intSteps (b - a) step := by
+      unfold intSteps
+      by_cases hc : (0 < step ∧ (b - a).tdiv step * step < b - a) ∨ (step < 0 ∧ b - a < (b - a).tdiv step * step)
+      · rw [if_pos hc, if_pos (hcond.mpr hc)]
+      · rw [if_neg hc, if_neg (fun h => hc (hcond.mp h))]
+    show intAsUsize (if (0 < step ∧ ¬ a + ((if (0 < step ∧ a + (b - a).tdiv step * step < b) ∨ (step < 0 ∧ b < a + (b - a).tdiv step * step)
+        then (b - a).tdiv step + 1 else (b - a).tdiv step) - 1) * step < b) ∨
+        (step < 0 ∧ ¬ b < a + ((if (0 < step ∧ a + (b - a).tdiv step * step < b) ∨ (step < 0 ∧ b < a + (b - a).tdiv step * step)
+        then (b - a).tdiv step + 1 else (b - a).tdiv step) - 1) * step)
+      then (if (0 < step ∧ a + (b - a).tdiv step * step < b) ∨ (step < 0 ∧ b < a + (b - a).tdiv step * step)
+        then (b - a).tdiv step + 1 else (b - a).tdiv step) - 1
+      else (if (0 < step ∧ a + (b - a).tdiv step * step < b) ∨ (step < 0 ∧ b < a + (b - a).tdiv step * step)
+        then (b - a).tdiv step + 1 else (b - a).tdiv step)) = _
+    rw [hsteps]
     show intAsUsize (if (0 < step ∧ ¬ a + (intSteps (b - a) step - 1) * step < b) ∨
         (step < 0 ∧ ¬ b < a + (intSteps (b - a) step - 1) * step)
       then intSteps (b - a) step - 1 else intSteps (b - a) step) = _
